@@ -90,3 +90,24 @@ package consensus
 //@   modifies p.lastProposed
 //@   preserves @std
 //@   ensures blockchain.storeskept() && core.cfgstable()
+
+// ---- commit path (C06: executed in chain order; C07: the committed view never decreases).
+// The ghost trace `added` logs the events handed to the event loop. commitInner emits, for
+// each newly committed block in ancestor-first order, the triple CommitEvent{block},
+// ExecuteEvent{block's batch}, ConsensusLatencyEvent.
+//@ pred cmwf(cm *Committer) = cm.eventLoop != nil && cm.logger != nil && cm.blockchain != nil && cm.viewStates != nil && cm.viewStates.committedBlock != nil && blockchain.binv(cm.blockchain) && blockchain.bmaps(cm.blockchain) && cm.blockchain.sender != nil && cm.blockchain.eventLoop != nil
+//@ pure func cblk(i int) *hotstuff.Block = as(traceev(added, 0, i), hotstuff.CommitEvent).Block
+
+//@ func (*Committer).commitInner property C06,C07
+//@   requires cmwf(cm) && block != nil && committedBlock != nil && cm.viewStates.committedBlock == committedBlock
+//@   requires [views-grow-along-parent-links] blockchain.grows(cm.blockchain)
+//@   modifies trace(added), cm.viewStates.committedBlock, cm.blockchain.blocks[*], cm.blockchain.blockAtHeight[*], cm.blockchain.pendingFetch[*], cm.blockchain.eventLoop.handlers[*], cm.eventLoop.eventQ.head, cm.eventLoop.eventQ.tail, cm.eventLoop.eventQ.entries[*], alloc
+//@   ensures [inv] cmwf(cm) && blockchain.grows(cm.blockchain)
+//@   ensures [error-executes-nothing] result != nil ==> tracelen(added) == old(tracelen(added)) && cm.viewStates.committedBlock == committedBlock
+//@   ensures [nothing-to-do] committedBlock.view >= block.view ==> result == nil && tracelen(added) == old(tracelen(added)) && cm.viewStates.committedBlock == committedBlock
+//@   ensures [commits-block] result == nil && committedBlock.view < block.view ==> cm.viewStates.committedBlock == block && tracelen(added) >= old(tracelen(added)) + 3 && cblk(tracelen(added) - 3) == block
+//@   ensures [monotone] cm.viewStates.committedBlock.view >= committedBlock.view
+//@   ensures [triples] tracelen(added) >= old(tracelen(added)) && (tracelen(added) - old(tracelen(added))) % 3 == 0
+//@   ensures [events] forall i int :: {traceat(added, 0, i)} old(tracelen(added)) <= i && i < tracelen(added) && (i - old(tracelen(added))) % 3 == 0 ==> istype(traceev(added, 0, i), hotstuff.CommitEvent) && istype(traceev(added, 0, i + 1), clientpb.ExecuteEvent) && cblk(i) != nil && as(traceev(added, 0, i + 1), clientpb.ExecuteEvent).Batch == cblk(i).batch && cblk(i).view > committedBlock.view && cblk(i).view <= block.view
+//@   ensures [chain-order] forall i int :: {traceat(added, 0, i)} old(tracelen(added)) <= i && i + 3 < tracelen(added) && (i - old(tracelen(added))) % 3 == 0 ==> cblk(i + 3).parent == cblk(i).hash && cblk(i).view < cblk(i + 3).view
+//@   ensures [history-kept] forall i int :: {traceat(added, 0, i)} 0 <= i && i < old(tracelen(added)) ==> traceat(added, 0, i) == old(traceat(added, 0, i))
